@@ -181,6 +181,27 @@ def histories(ctx):
                     ctx.violation('spec', f"gen_params call {specs[i]['seq']} at position {k} of the history {[specs[j]['seq'] for j in seq]} "
                                   f"differs from the same call in a fresh process", {'history': True, 'sequence': seq, 'position': k})
                     break
+        # the definitions file is edited between two runs of one process (parameter scan on one path):
+        # the later run must see the file as it is now, as a fresh process does
+        edited = GP_FF.replace('1 0.33 7000', '1 0.33 7777').replace('1 0.27 8000', '1 0.29 8100')
+        spec = {'seq': ['PS:2', 'PEO:2']}
+        first = gen_params_call(wd, spec, 70)
+        with open(os.path.join(wd, 'gp.ff'), 'w') as fh:
+            fh.write(edited)
+        second = gen_params_call(wd, spec, 71)
+        code = ("import pathlib\nimport polyply.src.gen_itp as gi\n"
+                f"gi.gen_params(name='x', outpath=pathlib.Path(r'{wd}')/'refe.itp', inpath=[pathlib.Path(r'{wd}')/'gp.ff'], lib=None, seq={spec['seq']!r})\n")
+        p = subprocess.run(['/venv/bin/python', '-c', code], env=core.env_for_impl(), capture_output=True, text=True, timeout=120)
+        with open(os.path.join(wd, 'gp.ff'), 'w') as fh:
+            fh.write(GP_FF)
+        ctx.case(('history', 'edited definitions'), nontrivial=True, sample={'history_of_calls': ['run', 'edit gp.ff', 'run']})
+        if p.returncode == 0:
+            with open(os.path.join(wd, 'refe.itp')) as fh:
+                want = strip_header(fh.read())
+            if second != want:
+                ctx.violation('spec', "gen_params after an earlier run in the same process on the same (since edited) definitions file differs from a "
+                              f"fresh process: {'it still uses the old definitions' if second == first else 'other difference'}",
+                              {'history': True, 'edited_definitions': True})
         # .json graphs with arbitrary node ids
         for _ in range(ctx.n(6, 40)):
             n = rng.randint(2, 5)
